@@ -550,8 +550,7 @@ func run(c *vf.Ctx) {
 	for _, f := range findings {
 		seenKey[f.key]++
 		if seenKey[f.key] > 3 {
-			c.Violation(f.key, nil, "program %d (further occurrence)", f.p.ID)
-			continue
+			continue // further occurrences of the same key are only counted (mismatch_keys)
 		}
 		w := map[string]any{
 			"program_id": f.p.ID, "snippet": f.d.snippet, "tag": f.d.tag, "first_diff_line": f.d.line,
@@ -590,6 +589,17 @@ func run(c *vf.Ctx) {
 		w["program"] = minp.GnoFile()[len("package main\n\n")+len(goprog.Prelude):] // program text without the shared prelude
 		c.Violation(f.key, w, "Go and GnoVM disagree in snippet %d (%s) of program %d at output line %d: go=%q gno=%q", f.d.snippet, f.d.tag, f.p.ID, f.d.line, f.d.goLine, f.d.gnoLine)
 	}
+
+	if len(seenKey) > 0 {
+		c.Set("mismatch_keys", seenKey)
+		keys := make([]string, 0, len(seenKey))
+		for k := range seenKey {
+			keys = append(keys, fmt.Sprintf("%s x%d", k, seenKey[k]))
+		}
+		sort.Strings(keys)
+		c.Logf("differing programs by key: %s", strings.Join(keys, "; "))
+	}
+	c.Count("programs_differing", len(findings))
 
 	// evidence
 	for k, v := range famCount {
